@@ -36,9 +36,10 @@ const (
 	Short                 // like Multi but every part body is truncated by one byte
 	NotFound              // 404
 	Unauth                // 401 with a Www-Authenticate challenge
+	FirstOnly             // 206 with only the FIRST requested range (an honest but partial answer)
 )
 
-var ModeNames = []string{"multi", "squash", "whole", "redirect", "forbidden", "badreq", "servererr", "neterr", "short", "notfound", "unauth"}
+var ModeNames = []string{"multi", "squash", "whole", "redirect", "forbidden", "badreq", "servererr", "neterr", "short", "notfound", "unauth", "firstonly"}
 
 func (m Mode) String() string { return ModeNames[m] }
 
@@ -259,6 +260,9 @@ func (r *Registry) RoundTrip(req *http.Request) (*http.Response, error) {
 	}
 	if len(ranges) == 0 {
 		return fail(mode, 416)
+	}
+	if mode == FirstOnly {
+		ranges = ranges[:1]
 	}
 	if mode == Squash {
 		s := ranges[0]
